@@ -162,6 +162,7 @@ class Report:
         self.rule = ""
         self.harness_errors = []
         self.exhaustive = True
+        self.metrics = {}
 
     # -- bookkeeping used by every engine
     def record(self, case, res):
@@ -175,6 +176,12 @@ class Report:
         self.outcomes[o] = self.outcomes.get(o, 0) + 1
         for sig, msg in res.get("viol", []):
             self.violations.append((sig, msg, case))
+        for k, v in (res.get("metrics") or {}).items():
+            m = self.metrics.setdefault(k, {"n": 0, "sum": 0.0, "max": float("-inf"), "min": float("inf")})
+            m["n"] += 1
+            m["sum"] += float(v)
+            m["max"] = max(m["max"], float(v))
+            m["min"] = min(m["min"], float(v))
 
     def add_sample(self, s, limit=6):
         if len(self.samples) < limit:
@@ -294,6 +301,7 @@ def finish(report: Report, mod) -> int:
     cov.setdefault("exhaustive", report.exhaustive)
     cov["distinct_outcomes"] = len(report.outcomes)
     cov["outcome_histogram"] = dict(sorted(report.outcomes.items(), key=lambda kv: -kv[1])[:20])
+    cov["metrics"] = {k: {"n": m["n"], "mean": m["sum"] / max(1, m["n"]), "max": m["max"], "min": m["min"]} for k, m in report.metrics.items()}
     cov["violating_signatures_new"] = sorted(new_sigs)
     cov["violating_signatures_known"] = sorted(known_sigs)
     cov["tree_under_test"] = str(REPO)
